@@ -316,9 +316,9 @@ class RDFWriter(object):
             else:
                 curr_val = getattr(prop, k)
 
-            # Ignore "id" and empty values, but make sure the content of "value"
-            # is only accessed via its non deprecated property "values".
-            if k == "id" or not curr_val:
+            # Ignore "id" and unset or empty content. Numerically falsy content
+            # like an uncertainty of 0 is set content and has to be exported.
+            if k == "id" or curr_val is None or curr_val == "" or (k == "value" and not curr_val):
                 continue
 
             if k == "value":
